@@ -1164,7 +1164,7 @@ def _pending_ok(last):
 
 
 def _inv_parts(self, yielded, last_line_wo_ending_new_line, _i):
-    return join_of(yielded) + _pending(last_line_wo_ending_new_line) == prefix_join(part_txts(self._parts), _i) \
+    return text_spec.line_body_over_concat() and join_of(yielded) + _pending(last_line_wo_ending_new_line) == prefix_join(part_txts(self._parts), _i) \
         and _pending_ok(last_line_wo_ending_new_line) and _complete_lines(yielded)
 
 
@@ -1190,7 +1190,7 @@ def _inv_last_other_lines(self, yielded, _i, _n, _xs):
 _LAST = 'last_line_wo_ending_new_line'
 _LOCALS = {'non_last_part': 'local', 'non_last_part_lines': 'local', 'first_line': 'local', 'non_first_line': 'local'}
 
-_LINES_ITER_PROOF = False      # TODO (work in progress): loop#2 / loop#4 entry obligations are not yet within the solvers' reach
+_LINES_ITER_PROOF = False      # work in progress: 9 of 10 clauses discharge (4-5 min); `loop#4 invariant[entry]` is beyond the solvers
 if _LINES_ITER_PROOF:
     M.contract(_P_CC + '._lines_iter', params=dict(self=CONCAT_CONTENTS), yields=ListOf(Str),
                ensures={'lines == split_nl(txt)': lambda self, yielded: is_split_nl(yielded, txt_of(self))},
